@@ -244,42 +244,11 @@ func c16FmtNum(v any) string { return stream.VerifEncodeOne(v) }
 func runC16(tier string, seed uint64, o *Out) error {
 	rng := NewRNG(seed)
 	thorough := tier == "thorough"
-	// ---------------- (1) encoder through the hook: single values and tuples, literal comparison
 	var tame []any
 	tame = append(tame, c16Ints...)
 	tame = append(tame, c16TameFloats...)
 	tame = append(tame, c16Strs...)
 	tame = append(tame, c16Others...)
-	for _, v := range tame {
-		o.Line("C16 E S %s # %s", c16Tok(v), hx(stream.VerifEncodeKey(v)))
-		o.Line("C16 E T 1 %s # %s", c16Tok(v), hx(stream.VerifEncodeKey([]any{v})))
-	}
-	o.Count("encoder_single_pool")
-	nE := 1500
-	if thorough {
-		nE = 40000
-	}
-	for i := 0; i < nE; i++ {
-		n := rng.Intn(4)
-		if rng.Intn(10) == 0 {
-			n = rng.Intn(12) // long tuples: the length prefix gets two digits for long strings only; see strs below
-		}
-		vs := make([]any, n)
-		for j := range vs {
-			vs[j] = c16PickKey(rng, false)
-			if rng.Intn(25) == 0 {
-				vs[j] = strings.Repeat("ab\x1f", rng.Intn(60)) // component longer than 9 / 99 bytes
-			}
-			if rng.Intn(12) == 0 { // random dyadic with a short expansion
-				vs[j] = float64(rng.Intn(4001)-2000) / float64(int(1)<<uint(rng.Intn(8)))
-			}
-			if rng.Intn(12) == 0 {
-				vs[j] = int64(rng.Next())
-			}
-		}
-		o.Line("C16 E T %s # %s", c16Tuple(vs), hx(stream.VerifEncodeKey(vs)))
-	}
-	o.Count("encoder_tuples")
 	// ---------------- (2) equality of encodings vs the property's key equality
 	for _, p := range c16Adversarial {
 		eq := stream.VerifEncodeKey(p[0]) == stream.VerifEncodeKey(p[1])
@@ -387,6 +356,38 @@ func runC16(tier string, seed uint64, o *Out) error {
 		o.Line("%s", l)
 	}
 	o.Count("group_by_joined_column")
+	// ---------------- (6) encoder through the hook: single values and tuples, literal comparison
+	// (last: the driver prints only the first 200 non-ok verdicts, and the judged lines must come first)
+	for _, v := range tame {
+		o.Line("C16 E S %s # %s", c16Tok(v), hx(stream.VerifEncodeKey(v)))
+		o.Line("C16 E T 1 %s # %s", c16Tok(v), hx(stream.VerifEncodeKey([]any{v})))
+	}
+	o.Count("encoder_single_pool")
+	nE := 1500
+	if thorough {
+		nE = 40000
+	}
+	for i := 0; i < nE; i++ {
+		n := rng.Intn(4)
+		if rng.Intn(10) == 0 {
+			n = rng.Intn(12) // long tuples: the length prefix gets two digits for long strings only; see strs below
+		}
+		vs := make([]any, n)
+		for j := range vs {
+			vs[j] = c16PickKey(rng, false)
+			if rng.Intn(25) == 0 {
+				vs[j] = strings.Repeat("ab\x1f", rng.Intn(60)) // component longer than 9 / 99 bytes
+			}
+			if rng.Intn(12) == 0 { // random dyadic with a short expansion
+				vs[j] = float64(rng.Intn(4001)-2000) / float64(int(1)<<uint(rng.Intn(8)))
+			}
+			if rng.Intn(12) == 0 {
+				vs[j] = int64(rng.Next())
+			}
+		}
+		o.Line("C16 E T %s # %s", c16Tuple(vs), hx(stream.VerifEncodeKey(vs)))
+	}
+	o.Count("encoder_tuples")
 	return nil
 }
 
